@@ -787,7 +787,10 @@ def norm_href(world, text, base):
     if text is None or text == "":
         return ("malformed", None)
     try:
-        u = urllib.parse.urljoin("http://sim" + base, text)
+        if text.startswith("/") and not text.startswith("//"):
+            u = "http://sim" + text  # absolute-path reference: keep the spelling as sent
+        else:
+            u = urllib.parse.urljoin("http://sim" + base, text)
         sp = urllib.parse.urlsplit(u)
         _ = sp.port
     except ValueError:
@@ -896,6 +899,10 @@ def summarize_multiget(run, rs, base, data_tag):
 
 
 def live_member(run, after, rel, ext):
+    import posixpath
+
+    # different spellings (doubled slashes, "." segments) address the same resource
+    rel = posixpath.normpath(rel)
     for path, o in after.items():
         if rel.startswith(path) and o.exists:
             n = rel[len(path):]
